@@ -272,3 +272,13 @@ Proof. reflexivity. Qed.
 Theorem extend_one_by_one m l :
   extend m l = fold_left (fun m kv => fst (vstep m (OpInsert (fst kv) (snd kv)))) l m.
 Proof. reflexivity. Qed.
+
+Theorem is_empty_denote h : is_empty (denote h) = match h with [] => true | _ => false end.
+Proof.
+  destruct h as [|[k v] h]; [reflexivity|].
+  assert (In k (keys_of ((k, v) :: h))) as Hin by (apply keys_of_in; left; reflexivity).
+  rewrite <- denote_fst in Hin. destruct (denote ((k, v) :: h)); [destruct Hin | reflexivity].
+Qed.
+
+Theorem index_denote h k : index (denote h) k = last_val h k.
+Proof. apply get_denote. Qed.
